@@ -79,12 +79,19 @@ FixedBook == Book(("a1L" :> LegacyAsk), ("b1" :> AsV2(FreshBid("b1", "buyer1"), 
                   ("b2L" :> [FreshBid("b2L", "buyer2") EXCEPT !.ab = 1, !.aq = 2, !.af = 1])
                   @@ ("b3" :> AsV2(FreshBid("b3", "buyer2"), <<Ev("reject", 1, 2, 1), Ev("fill", 1, 1, 0), Ev("refund", 0, 1, 0)>>)))
 
+\* eleven current-format bids in key order followed by one old-format bid (a migration that pages through the
+\* book must not take a page without old-format bids for the end of the book)
+LongIds == <<"b1", "b2", "b3", "b4", "b5", "b6", "b7", "b8", "s1", "s2", "s3">>
+LongBook == Book(<<>>, [k \in Range(LongIds) |-> [FreshBid(k, "buyer1") EXCEPT !.ab = 1, !.aq = 2, !.af = 1]],
+                 ("s4" :> AsV2(FreshBid("s4", "buyer2"), <<Ev("fill", 1, 2, 1), Ev("reject", 1, 2, 0)>>)))
+
 AllVersions == {NoVer, "garbage", "1.0", "0.14.9", "0.15.0", "0.16.1", "0.16.2", "0.18.2", "0.19.0", "0.19.1",
                 "1.0.0", "2.0.0", "1.0.0-rc1", "0.16.2-alpha", "1.0.0+build5",
                 \* versions whose order as strings differs from their order as versions
                 "0.9.3", "0.16.10", "0.100.0", "10.0.0"}
 Seeds ==
        {[FixedBook EXCEPT !.cfg = c] @@ [ver |-> v] : v \in AllVersions, c \in {Cfg, UnsetCfg}}
+  \cup {LongBook @@ [ver |-> "0.19.0"]}
   \cup {Book(a, b1, b2) @@ [ver |-> v] : v \in (IF Tier = "quick" THEN {"0.18.2"} ELSE {"0.18.2", "0.19.1"}),
                                           a \in (IF Tier = "quick" THEN {<<>>} ELSE AskVariants),
                                           b1 \in B1Variants, b2 \in (IF Tier = "quick" THEN {<<>>} ELSE B2Variants)}
@@ -112,6 +119,7 @@ ContReqs(S) ==
           : k \in {"cancel_ask", "expire_ask"}, i \in {"a1L", "a1", "a2"}}
   \cup {RReverse(k, IF k = "cancel_bid" THEN (IF i = "b1" THEN "buyer1" ELSE "buyer2") ELSE "exec1", NoFunds, i, NoSize)
           : k \in {"cancel_bid", "expire_bid"}, i \in {"b1", "b2L", "b2", "b3"}}
+  \cup {RReverse("cancel_bid", "buyer2", NoFunds, "s4", NoSize), RQuery("query_bid", "s4")}
   \cup {RReverse("reject_bid", "exec1", NoFunds, i, s) : i \in {"b1", "b2L"}, s \in {NoSize, 1}}
   \cup {RReverse("reject_ask", "exec1", NoFunds, "a1L", 1)}
   \cup {RCreateAsk("seller2", Coins1("base", 2), "a2", "base", "q1", P(1), 2)}
